@@ -32,6 +32,11 @@ c.param('self', Ref('BaseClient'))
 c.ensures('clean-state', "self.state == 'disconnected' and self.sid is None")
 c.modifies('self.state', 'self.sid')
 
+c = REG.contract('async_client.AsyncClient._reset', props=['C08'])
+c.param('self', Ref('AsyncClient'))
+c.ensures('clean-state', "self.state == 'disconnected' and self.sid is None")
+c.modifies('self.state', 'self.sid', 'ghost.now')
+
 CLIENT_WF = ("(self.state == 'connected' or self.state == 'disconnecting' or "
              "self.state == 'disconnected') and implies(self.state == 'connected', "
              "self.queue is not None and self.queue.unf >= len(self.queue.items) and "
@@ -51,81 +56,84 @@ for cls, mod in (('Client', 'client'), ('AsyncClient', 'async_client')):
               "self.queue.unf >= len(self.queue.items))")
     c.modifies('self.queue.items', 'self.queue.unf', 'self.queue.accepted', 'self.queue.put_none')
 
-c = REG.contract('client.Client._trigger_event', props=['C08', 'C09'])
-c.param('self', Ref('Client')).param('event', STR)
-c.param('args', [Ty('tup', ANY), Ty('tup', STR), Ty('tup')])
-c.param('kwargs', Ty('rec', ('run_async', BOOL)))
-c.returns(ANY)
-c.ensures('unregistered-is-noop', 'implies(event not in self.handlers, result is None and '
-          'events == old(events) and hresults == old(hresults) and spawned == old(spawned))')
-c.ensures('background-spawns-the-handler-once', "implies(event in self.handlers and "
-          "kwargs['run_async'], events == old(events) and hresults == old(hresults) and "
-          "spawned == old(spawned) + [mk_task('handler', self.handlers[event])])", props=['C09'])
-c.ensures('sync-invokes-once', "implies(event in self.handlers and not kwargs['run_async'] and "
-          "len(args) == 1 and handler_accepts(self.handlers[event], 1), "
-          "spawned == old(spawned) and "
-          "last_event_is(events, old(events), self.handlers[event], 1, args[0], None))",
-          props=['C08'])
-c.ensures('events-only-grow', 'grows(events, old(events))')
-c.modifies('ghost.events', 'ghost.hresults', 'ghost.spawned', 'ghost.now')
+for _cls, _mod in (('Client', 'client'), ('AsyncClient', 'async_client')):
+    c = REG.contract('%s.%s._trigger_event' % (_mod, _cls), props=['C08', 'C09'])
+    c.param('self', Ref(_cls)).param('event', STR)
+    c.param('args', [Ty('tup', ANY), Ty('tup', STR), Ty('tup')])
+    c.param('kwargs', Ty('rec', ('run_async', BOOL)))
+    c.returns(ANY)
+    c.ensures('unregistered-is-noop', 'implies(event not in self.handlers, result is None and '
+              'events == old(events) and hresults == old(hresults) and spawned == old(spawned))')
+    c.ensures('background-spawns-the-handler-once', "implies(event in self.handlers and "
+              "kwargs['run_async'], events == old(events) and hresults == old(hresults) and "
+              "one_task_spawned(spawned, old(spawned)) and "
+              "client_handler_task(task_name(spawned[len(old(spawned))])))", props=['C09'])
+    c.ensures('sync-invokes-once', "implies(event in self.handlers and not kwargs['run_async'] and "
+              "len(args) == 1 and handler_accepts(self.handlers[event], 1), "
+              "spawned == old(spawned) and "
+              "last_event_is(events, old(events), self.handlers[event], 1, args[0], None))",
+              props=['C08'])
+    c.ensures('events-only-grow', 'grows(events, old(events))')
+    c.modifies('ghost.events', 'ghost.hresults', 'ghost.spawned', 'ghost.now')
 
-c = REG.contract('client.Client._receive_packet', props=['C09', 'C08'])
-c.param('self', Ref('Client')).param('pkt', Ref('Packet'))
-c.requires(CLIENT_WF, 'client-wf')
-c.requires('0 <= pkt.packet_type and pkt.packet_type <= 9', 'decoded-type-digit')
-c.requires("api_payload(3, pkt.data)", 'decoded-payload')
-c.requires("implies(self.state == 'connected', self.read_loop_task is not None)",
-           'loops-running-while-connected')
-c.ensures('ping-answered-with-pong-carrying-the-same-data', "implies(pkt.packet_type == 2 and "
-          "self.state == 'connected', len(self.queue.accepted) == "
-          "len(old(self.queue.accepted)) + 1 and "
-          "self.queue.accepted[len(old(self.queue.accepted))].packet_type == 3 and "
-          "self.queue.accepted[len(old(self.queue.accepted))].data == pkt.data and "
-          "events == old(events) and hresults == old(hresults))", props=['C09'])
-c.ensures('message-delivered-exactly-once', "implies(pkt.packet_type == 4 and "
-          "'message' in self.handlers, events == old(events) and hresults == old(hresults) and "
-          "spawned == old(spawned) + [mk_task('handler', self.handlers['message'])] and "
-          "self.state == old(self.state))", props=['C09'])
-c.ensures('noop-and-unknown-types-do-nothing', "implies(pkt.packet_type not in (1, 2, 4), "
-          "events == old(events) and hresults == old(hresults) and spawned == old(spawned) and "
-          "self.state == old(self.state) and unchanged('Queue.items'))", props=['C09'])
-c.ensures('close-disconnects-with-server-reason', "implies(pkt.packet_type == 1 and "
-          "old(self.state) == 'connected', self.state == 'disconnected' and self.sid is None)",
-          props=['C08', 'C09'])
-c.modifies('self.state', 'self.sid', 'self.queue.items', 'self.queue.unf',
-           'self.queue.accepted', 'self.queue.put_none', 'ghost.events', 'ghost.hresults',
-           'ghost.spawned', 'ghost.now')
+    c = REG.contract('%s.%s._receive_packet' % (_mod, _cls), props=['C09', 'C08'])
+    c.param('self', Ref(_cls)).param('pkt', Ref('Packet'))
+    c.requires(CLIENT_WF, 'client-wf')
+    c.requires('0 <= pkt.packet_type and pkt.packet_type <= 9', 'decoded-type-digit')
+    c.requires("api_payload(3, pkt.data)", 'decoded-payload')
+    c.requires("implies(self.state == 'connected', self.read_loop_task is not None)",
+               'loops-running-while-connected')
+    c.ensures('ping-answered-with-pong-carrying-the-same-data', "implies(pkt.packet_type == 2 and "
+              "self.state == 'connected', len(self.queue.accepted) == "
+              "len(old(self.queue.accepted)) + 1 and "
+              "self.queue.accepted[len(old(self.queue.accepted))].packet_type == 3 and "
+              "self.queue.accepted[len(old(self.queue.accepted))].data == pkt.data and "
+              "events == old(events) and hresults == old(hresults))", props=['C09'])
+    c.ensures('message-delivered-exactly-once', "implies(pkt.packet_type == 4 and "
+              "'message' in self.handlers, events == old(events) and hresults == old(hresults) and "
+              "one_task_spawned(spawned, old(spawned)) and "
+              "client_handler_task(task_name(spawned[len(old(spawned))])) and "
+              "self.state == old(self.state))", props=['C09'])
+    c.ensures('noop-and-unknown-types-do-nothing', "implies(pkt.packet_type not in (1, 2, 4), "
+              "events == old(events) and hresults == old(hresults) and spawned == old(spawned) and "
+              "self.state == old(self.state) and unchanged('Queue.items'))", props=['C09'])
+    c.ensures('close-disconnects-with-server-reason', "implies(pkt.packet_type == 1 and "
+              "old(self.state) == 'connected', self.state == 'disconnected' and self.sid is None)",
+              props=['C08', 'C09'])
+    c.modifies('self.state', 'self.sid', 'self.queue.items', 'self.queue.unf',
+               'self.queue.accepted', 'self.queue.put_none', 'ghost.events', 'ghost.hresults',
+               'ghost.spawned', 'ghost.now')
 
-c = REG.contract('client.Client.send', props=['C08', 'C09'])
-c.param('self', Ref('Client')).param('data', ANY)
-c.requires(CLIENT_WF, 'client-wf')
-c.requires('api_payload(4, data)', 'api-payload')
-c.ensures('harmless-when-not-connected', "implies(self.state != 'connected', "
-          "unchanged('Queue.items', 'Queue.accepted') and events == old(events) and hresults == old(hresults))", props=['C08'])
-c.ensures('one-message-queued', "implies(self.state == 'connected', "
-          "len(self.queue.accepted) == len(old(self.queue.accepted)) + 1 and "
-          "self.queue.accepted[len(old(self.queue.accepted))].packet_type == 4 and "
-          "self.queue.accepted[len(old(self.queue.accepted))].data == data)", props=['C09'])
-c.modifies('self.queue.items', 'self.queue.unf', 'self.queue.accepted', 'self.queue.put_none')
+    c = REG.contract('%s.%s.send' % (_mod, _cls), props=['C08', 'C09'])
+    c.param('self', Ref(_cls)).param('data', ANY)
+    c.requires(CLIENT_WF, 'client-wf')
+    c.requires('api_payload(4, data)', 'api-payload')
+    c.ensures('harmless-when-not-connected', "implies(self.state != 'connected', "
+              "unchanged('Queue.items', 'Queue.accepted') and events == old(events) and hresults == old(hresults))", props=['C08'])
+    c.ensures('one-message-queued', "implies(self.state == 'connected', "
+              "len(self.queue.accepted) == len(old(self.queue.accepted)) + 1 and "
+              "self.queue.accepted[len(old(self.queue.accepted))].packet_type == 4 and "
+              "self.queue.accepted[len(old(self.queue.accepted))].data == data)", props=['C09'])
+    c.modifies('self.queue.items', 'self.queue.unf', 'self.queue.accepted', 'self.queue.put_none')
 
-c = REG.contract('client.Client.disconnect', props=['C08'])
-c.param('self', Ref('Client')).param('abort', BOOL).param('reason', [NONE, STR])
-c.requires(CLIENT_WF, 'client-wf')
-c.ensures('always-ends-disconnected-and-reusable', "self.state == 'disconnected' and "
-          "self.sid is None")
-c.ensures('harmless-when-not-connected', "implies(old(self.state) != 'connected', "
-          "events == old(events) and hresults == old(hresults) and unchanged('Queue.items', 'Queue.accepted'))")
-c.ensures('exactly-one-disconnect-event-with-the-reason', "implies(old(self.state) == "
-          "'connected' and 'disconnect' in self.handlers and "
-          "handler_accepts(self.handlers['disconnect'], 1), last_event_is(events, old(events), "
-          "self.handlers['disconnect'], 1, reason or 'client disconnect', None))")
-c.ensures('close-then-sentinel-queued', "implies(old(self.state) == 'connected', "
-          "len(self.queue.accepted) == len(old(self.queue.accepted)) + 1 and "
-          "self.queue.accepted[len(old(self.queue.accepted))].packet_type == 1 and "
-          "self.queue.put_none == old(self.queue.put_none) + 1)")
-c.modifies('self.state', 'self.sid', 'self.queue.items', 'self.queue.unf',
-           'self.queue.accepted', 'self.queue.put_none', 'ghost.events', 'ghost.hresults',
-           'ghost.spawned', 'ghost.now')
+    c = REG.contract('%s.%s.disconnect' % (_mod, _cls), props=['C08'])
+    c.param('self', Ref(_cls)).param('abort', BOOL).param('reason', [NONE, STR])
+    c.requires(CLIENT_WF, 'client-wf')
+    c.ensures('always-ends-disconnected-and-reusable', "self.state == 'disconnected' and "
+              "self.sid is None")
+    c.ensures('harmless-when-not-connected', "implies(old(self.state) != 'connected', "
+              "events == old(events) and hresults == old(hresults) and unchanged('Queue.items', 'Queue.accepted'))")
+    c.ensures('exactly-one-disconnect-event-with-the-reason', "implies(old(self.state) == "
+              "'connected' and 'disconnect' in self.handlers and "
+              "handler_accepts(self.handlers['disconnect'], 1), last_event_is(events, old(events), "
+              "self.handlers['disconnect'], 1, reason or 'client disconnect', None))")
+    c.ensures('close-then-sentinel-queued', "implies(old(self.state) == 'connected', "
+              "len(self.queue.accepted) == len(old(self.queue.accepted)) + 1 and "
+              "self.queue.accepted[len(old(self.queue.accepted))].packet_type == 1 and "
+              "self.queue.put_none == old(self.queue.put_none) + 1)")
+    c.modifies('self.state', 'self.sid', 'self.queue.items', 'self.queue.unf',
+               'self.queue.accepted', 'self.queue.put_none', 'ghost.events', 'ghost.hresults',
+               'ghost.spawned', 'ghost.now')
 
 # ----------------------------------------------------------------- the write loop (C09, C10)
 # Client._write_loop: takes everything that is queued, transmits it once and in order on the
